@@ -82,12 +82,20 @@ class Ctx:
         lines = []
         for v, k in knowns:
             lines.append("KNOWN-FINDING: property=%s %s [%s]" % (self.prop, k.get("what", v["detail"]), v["key"]))
-        for n, v in enumerate(unexplained):
+        groups = {}
+        for v in unexplained:
+            groups.setdefault(v["key"], []).append(v)
+        for n, (gk, vs) in enumerate(sorted(groups.items())):
+            v = dict(vs[0])
+            if len(vs) > 1:
+                v["detail"] = "%s  [+%d more instances of this violation class: %s]" % (
+                    v["detail"], len(vs) - 1, "; ".join(x["instance"] for x in vs[1:8]))
+            v["instances"] = [x["instance"] for x in vs]
             rp = os.path.join(evdir, "violations", "%s-%d.json" % (self.prop, n))
             with open(rp, "w") as f:
                 json.dump(dict(property=self.prop, rule=v["rule"], rule_text=self.rules.get(v["rule"], ""),
                                instance=v["instance"], key=v["key"], detail=v["detail"], location=v.get("loc"),
-                               function=v.get("fn"), path=v.get("path"), tier=self.tier,
+                               function=v.get("fn"), path=v.get("path"), tier=self.tier, instances=v.get("instances"),
                                facts_config=self.prog.config if self.prog else None), f, indent=1)
             lines.append("VIOLATION property=%s replay=%s" % (self.prop, rp))
             lines.append(("  rule=%s instance=%s at %s: %s" % (v["rule"], v["instance"], v.get("loc") or "-", v["detail"]))[:700])
